@@ -35,7 +35,11 @@
 //
 // Call order: a quarter of the Preload directives are the LAST of 2-3 Preload calls of the chain for
 // the same name (earlier calls under other conditions or none, at the start of the chain or right
-// before: only the last call counts), some Preload calls are made by a db.Scopes function, and a
+// before: only the last call counts), some Preload calls are made by a db.Scopes function, about a third
+// of the conditions are DISJUNCTIONS of two alternatives on v (scope function tx.Where(a).Or(b), grouped
+// tx.Where(db.Where(a).Or(b)), inline "a OR b": the children attached are those satisfying (a OR b), the
+// key condition and the soft-delete scope - soft-deleted children matching only the first alternative
+// included in the data), and a
 // quarter of the Association().Find calls go through Association(rel).Unscoped() (same rows expected:
 // the soft-delete scope is the handle's).
 package c11
@@ -323,7 +327,7 @@ func genSibling(r *core.Rand, ds *dataset, o *op) *sibling {
 			sb.relName = o.relName
 		}
 		if r.Bool() || (sb.relName == o.relName && o.findCond == nil) {
-			sb.cond = genCond(r, "args", "map")
+			sb.cond = genCond(r, "args", "map", "args-or")
 		}
 		sb.assocUnscoped = r.Chance(1, 4)
 		return sb
@@ -517,6 +521,12 @@ func (c *cond) String() string {
 		return fmt.Sprintf(`func(tx *gorm.DB) *gorm.DB { return tx.Where("v %s ?", %d).Order("v desc") }`, c.op, c.x)
 	case "scope-unscoped":
 		return fmt.Sprintf(`func(tx *gorm.DB) *gorm.DB { return tx.Unscoped().Where("v %s ?", %d) }`, c.op, c.x)
+	case "scope-or":
+		return fmt.Sprintf(`func(tx *gorm.DB) *gorm.DB { return tx.Where("v %s ?", %d).Or("v %s ?", %d) }`, c.op, c.x, c.op2, c.x2)
+	case "scope-or-group":
+		return fmt.Sprintf(`func(tx *gorm.DB) *gorm.DB { return tx.Where(tx.Session(&gorm.Session{NewDB: true}).Where("v %s ?", %d).Or("v %s ?", %d)) }`, c.op, c.x, c.op2, c.x2)
+	case "args-or":
+		return fmt.Sprintf(`"v %s ? OR v %s ?", %d, %d`, c.op, c.op2, c.x, c.x2)
 	case "join-on":
 		return fmt.Sprintf(`db.Where(clause.%s{Column: clause.Column{Table: clause.CurrentTable, Name: "v"}, Value: %d})`, map[string]string{">=": "Gte", "<": "Lt", "=": "Eq"}[c.op], c.x)
 	}
@@ -538,6 +548,16 @@ func (c *cond) args() []interface{} {
 		return []interface{}{func(tx *gorm.DB) *gorm.DB { return tx.Where(q, x).Order("v desc") }}
 	case "scope-unscoped":
 		return []interface{}{func(tx *gorm.DB) *gorm.DB { return tx.Unscoped().Where(q, x) }}
+	case "scope-or":
+		q2, x2 := "v "+c.op2+" ?", c.x2
+		return []interface{}{func(tx *gorm.DB) *gorm.DB { return tx.Where(q, x).Or(q2, x2) }}
+	case "scope-or-group":
+		q2, x2 := "v "+c.op2+" ?", c.x2
+		return []interface{}{func(tx *gorm.DB) *gorm.DB {
+			return tx.Where(tx.Session(&gorm.Session{NewDB: true}).Where(q, x).Or(q2, x2))
+		}}
+	case "args-or":
+		return []interface{}{"v " + c.op + " ? OR v " + c.op2 + " ?", x, c.x2}
 	case "join-on":
 		col := clause.Column{Table: clause.CurrentTable, Name: "v"}
 		var e clause.Expression
@@ -558,6 +578,12 @@ func genCond(r *core.Rand, forms ...string) *cond {
 	c := &cond{form: core.Pick(r, forms), op: core.Pick(r, []string{">=", "<", "="}), x: int64(r.Range(1, 2))}
 	if c.form == "map" {
 		c.op = "="
+	}
+	if c.alt() {
+		// two alternatives that are not the same condition (values of v are 0..3)
+		for c.op2 == "" || (c.op2 == c.op && c.x2 == c.x) {
+			c.op2, c.x2 = core.Pick(r, []string{">=", "<", "=", "="}), int64(r.Range(0, 3))
+		}
 	}
 	return c
 }
@@ -686,7 +712,7 @@ func genOp(r *core.Rand, ds *dataset) *op {
 			o.relName = core.Pick(r, addressable(o.root)).name
 			o.dest = core.Pick(r, []string{"slice", "ptrslice"})
 			if r.Chance(1, 3) {
-				o.findCond = genCond(r, "args", "map")
+				o.findCond = genCond(r, "args", "map", "args-or")
 			}
 			o.assocUnscoped = r.Chance(1, 4)
 			if tgt := ds.rows[o.root.rel(o.relName).target]; len(tgt) > 0 && r.Chance(1, 4) {
@@ -731,7 +757,7 @@ func genOp(r *core.Rand, ds *dataset) *op {
 			o.pre = append(o.pre, genStale(r, ds, o.root, core.Pick(r, ds.rows[o.root])))
 		}
 	}
-	preloadForms := []string{"args", "args", "map", "scope", "scope-order", "scope-unscoped"}
+	preloadForms := []string{"args", "args", "map", "scope", "scope-order", "scope-unscoped", "scope-or", "scope-or-group", "args-or"}
 	// under Unscoped() a has-one with several candidates cannot be joined (the JOIN multiplies the parent)
 	noJoin := func(rl *rel) bool { return o.unscoped && ds.ambiguous(rl) }
 	addPreload := func(path string, allowCond bool) {
@@ -749,7 +775,7 @@ func genOp(r *core.Rand, ds *dataset) *op {
 		}
 		// the relation was named by an EARLIER Preload call of the chain already, under other conditions
 		if r.Chance(1, 4) {
-			d.prior = genPrior(r, d.c, "args", "map", "scope", "scope-unscoped")
+			d.prior = genPrior(r, d.c, "args", "map", "scope", "scope-unscoped", "scope-or", "args-or")
 		} else if r.Chance(1, 8) {
 			// the call is made by a scope of the query
 			d.scoped = true
@@ -776,10 +802,10 @@ func genOp(r *core.Rand, ds *dataset) *op {
 	case "assoc-all":
 		o.all = true
 		if r.Chance(1, 3) {
-			o.allCond = genCond(r, "args", "map", "scope")
+			o.allCond = genCond(r, "args", "map", "scope", "scope-or", "args-or")
 		}
 		if r.Chance(1, 5) {
-			o.allPrior = genPrior(r, o.allCond, "args", "map", "scope")
+			o.allPrior = genPrior(r, o.allCond, "args", "map", "scope", "scope-or")
 		}
 		if r.Chance(1, 2) {
 			if p := walk(r, o.root, r.Range(2, 3), false); p != "" && depthOf(o.root, p) >= 2 {
@@ -910,6 +936,40 @@ func (o *op) repeats() bool {
 }
 
 // withoutPrior is the same operation with every relation preloaded by ONE call (the last one).
+// danglingOr reports whether a Preload call of the compared chain that is in force carries a scope
+// function ending in an ungrouped Or: tx.Where(a).Or(b).
+func (o *op) danglingOr() bool {
+	if o.all && o.allCond != nil && o.allCond.form == "scope-or" {
+		return true
+	}
+	for _, d := range o.preloads {
+		if d.c != nil && d.c.form == "scope-or" {
+			return true
+		}
+	}
+	return false
+}
+
+// groupedOr is the same operation with every such scope function written with a grouped condition,
+// tx.Where(db.Where(a).Or(b)): the same condition (a OR b) by the statement.
+func (o *op) groupedOr() *op {
+	grp := func(c *cond) *cond {
+		if c == nil || c.form != "scope-or" {
+			return c
+		}
+		g := *c
+		g.form = "scope-or-group"
+		return &g
+	}
+	c := *o
+	c.allCond = grp(o.allCond)
+	c.preloads = append([]dir{}, o.preloads...)
+	for i := range c.preloads {
+		c.preloads[i].c = grp(c.preloads[i].c)
+	}
+	return &c
+}
+
 func (o *op) withoutPrior() *op {
 	c := *o
 	c.allPrior = nil
@@ -1049,6 +1109,8 @@ type checker struct {
 	replaced int
 	// Association(rel).Unscoped().Find: soft-deleted rows of the parents rightly NOT returned
 	withheld int
+	// soft-deleted rows found attached to a requested relation whose soft-delete scope is in force
+	dead int
 }
 
 func (k *checker) add(rl *rel, f string, a ...interface{}) {
@@ -1212,6 +1274,14 @@ func (k *checker) record(m *model, got reflect.Value, want *row, t *loadNode, wh
 			}
 		}
 		if !sameInts(gu, wu) {
+			// (rows attached although the soft-delete scope in force excludes them: a class of its own)
+			if rl.target.soft && !k.unscoped && !sub.c.lifts() {
+				for _, u := range gu {
+					if t := k.ds.byU(rl.target, u); t != nil && t.deleted {
+						k.dead++
+					}
+				}
+			}
 			k.add(rl, "%s (%s, owner key %s): attached rows u=%v, reference join gives u=%v", w, rl.kind, want.tuple(rl.ownerCols), gu, wu)
 			if n := len(k.problems); n > 0 && k.problems[n-1].rl == rl {
 				k.problems[n-1].nokey = allZero(want.tuple(rl.ownerCols))
@@ -1931,7 +2001,19 @@ func run(c *core.Ctx) {
 			// counterfactually: the first single dimension whose removal makes the call agree
 			attributed := false
 			// (a counterfactual, so tried before the pattern-matched classes of the embedded-relation root)
-			if o.repeats() {
+			if o.danglingOr() {
+				grouped := o.groupedOr()
+				if kf := safeExec(ds, grouped); len(kf.problems) == 0 {
+					attributed = true
+					sig = "ungrouped-or-in-preload-scope-captures-key-condition:" + mechanisms(o, k)
+					if k.dead > 0 {
+						// (the soft-delete clause of the statement alone: rows out of scope are attached)
+						sig = "ungrouped-or-in-preload-scope-escapes-soft-delete-scope:" + mechanisms(o, k)
+					}
+					detail["counterfactual"] = "the same chain with the scope function written as one grouped condition, tx.Where(db.Where(a).Or(b)), agrees with the reference join: " + grouped.desc()
+				}
+			}
+			if !attributed && o.repeats() {
 				single := o.withoutPrior()
 				if kf := safeExec(ds, single); len(kf.problems) == 0 {
 					attributed = true
@@ -2069,6 +2151,7 @@ var Engine = &core.Engine{
 		"Association(rel).Unscoped().Find: 1/4 of the Association().Find operations (and of their siblings) call Unscoped() on the ASSOCIATION: the rows returned must be the same as without it (the soft-delete scope is that of the handle; counter ..._soft_deleted_rows_withheld = soft-deleted rows of the parents rightly not returned); a failure that disappears without it is signed unscoped-association:assoc-find:<relation kind> (both counterfactuals are tried before the others); " +
 		"one that disappears without Unscoped() unscoped:<preload|joins|assoc-find|parents|parents-of-inner-joins>, an Association().Find on several parents that agrees for each parent alone assoc-find-several-parents:<relation kind>[:composite-key] (tried in this order); " +
 		"ROOT MODEL: Node (8/16 of the operations), Item (3/16) or Org (5/16): a soft-delete model whose relations partly live in EMBEDDED structs - Org.Home (its OWN belongs-to Node), Org.Site.Home and Org.Site.Geo.Home (belongs-to relations of the SAME name in a named embedded struct `embedded;embeddedPrefix:site_` and in a second one embedded in the first: two embedding levels), Org.Site.Crew (has-many Node: Node.boss = the Site key) and Org.Site.Geo.Card (has-one Card: Card.node = the Geo key; I1: Site.Card, so that Geo holds nothing but a relation named like one of Site), S1 also Site.Annex (relation in a struct embedded ANONYMOUSLY in Site) and Mentor (anonymously embedded in the Org); every level has a key tuple of the world's key type drawn like a foreign key aimed at the nodes (existing / dangling / NULL / partially NULL / zero part); shapes per world: own Home declared before / after Site, Site.Home before / after Geo, Geo embedded by value / by pointer (II), the outer struct called Site or Base (IS: plain relation names then sort after the struct's name), explicit foreignKey tags with per-level field names or none with the same field name HomeA on both embedded levels (I1), pointer / value key parts; Preload names an embedded relation by its embedded path (\"Site.Geo.Home\", nested paths continue into the Node family), the plain name Home is the model's own relation for Preload, Joins and Association(); Crew / Card / Annex (unique names) are joined and given to Association() by their plain name, and preloaded by it in 1/4 of the cases (one name per relation and query); Preload(clause.Associations) must load the relations of every level; reused destinations, sessions, siblings, Unscoped as for the other roots; failures on this root are signed <class>:embedded-relation (a deviating relation of an embedded level) | <class>:model-with-embedded-relations | error:<kind>:model-with-embedded-relations, and two recognised classes embedded-relation-not-preloaded:join-of-same-name (the query joins a relation, e.g. the own Home, and preloads an embedded relation with the same field name, which stays empty) and assoc-all-reloads-embedded-relation:nested-preload-lost (Preload(clause.Associations) next to a nested Preload through an embedded relation with a unique name: the rows below it are missing); " +
+		"DISJUNCTIVE conditions: of the conditions of Preload / Preload(clause.Associations) / Association().Find (and of replaced earlier calls and siblings) about 1/3 are a disjunction of two alternatives on v (a OR b, drawn independently over all values of v, so soft-deleted children matching only the FIRST alternative occur): a scope function ending in an ungrouped Or, func(tx) { return tx.Where(a).Or(b) } (Preload only), a scope function with one grouped condition, tx.Where(db.Where(a).Or(b)), or inline arguments (\"v = ? OR v < ?\", x, y); each parent must hold exactly its own children satisfying (a OR b) and the soft-delete scope; a failure that disappears when the ungrouped scope function is written grouped is signed ungrouped-or-in-preload-scope-escapes-soft-delete-scope:<mechanisms> when a soft-deleted row is attached under a scope in force, else ungrouped-or-in-preload-scope-captures-key-condition:<mechanisms>; " +
 		"distinct = (world, operation kind, root, relation paths with condition forms, destination, finisher, reused flag, second-execution flag, duplicate flag, attached-children bucket, Unscoped flag, shape of the Association() parent value, several parents, shared-handle flag, forms of the replaced earlier Preload calls, scope-registered flag, Unscoped() on the association); non-trivial = at least one child row was attached where the reference join expects it",
 	Assumptions: []string{
 		"a record whose referenced key parts are ALL zero-valued (0 / '') is never generated as a match target: gorm treats an all-zero key as 'no key' (GetIdentityFieldValuesMap skips it); keys with SOME zero part are generated",
@@ -2086,6 +2169,7 @@ var Engine = &core.Engine{
 		"relations in embedded structs: an embedded relation shadowed by the model's own relation of the same name is addressed by its embedded path only (Preload); an embedded relation whose name is unique in the model is also addressed by its plain name (the only name Joins and Association() resolve); within one query a relation is preloaded under ONE name (plain or embedded path; gorm keeps one entry per name and each loads the field anew), and never by its plain name next to Preload(clause.Associations); an own foreign key field with the same NAME as a foreign key field of an embedded struct is not generated (which field gorm's naming convention / a foreignKey tag picks for the own relation is schema parsing, not part of this property: observed on the unchanged tree to be the LAST declared field of that name, i.e. the embedded one); all-zero non-NULL key tuples of an Org level are not generated (referenced key of has-many / has-one)",
 		"several Preload calls of one chain for the same name (same argument text): the conditions given are those of the LAST call (gorm keeps one entry per name, a later call replaces it, with or without conditions); the same relation is never preloaded under two different names, and a Preload made by a db.Scopes function never names a relation that the chain preloads itself (its place in the call order is the execution of the query: which call is the last is then not fixed by the statement)",
 		"Association(rel).Unscoped() does not change the rows Find returns: the soft-delete scope of a read is that of the handle (db.Unscoped()); Unscoped() of the association selects what Delete / Replace / Clear remove (property C12)",
+		"a disjunctive condition given to Preload / Association().Find means (a OR b) as ONE condition next to the key condition and the soft-delete scope, however it is spelt (ungrouped Or in a scope function, grouped condition, inline SQL with OR); Or is not generated in Joins ON-conditions nor on the parent query",
 		"order of attached children is not compared (multiset by unique row id u, then every scalar column and nested relation per row)",
 	},
 	Cases: func(tier string) int {
